@@ -19,6 +19,9 @@ STRENGTH_ID = {
  "C12-m3": "caught as built (embedded line breaks)", "C12-m4": "caught as built (1-byte chunks, CRLF then blank LF line)", "C13-m3": "caught as built", "C13-m4": "lazy sparse ARFF rows with missing cells read by name / as label",
  "C14-m3": "contexts with headers are also read by name", "C14-m4": "multi-label rewards probed with list, tuple, set and frozenset actions", "C15-m3": "caught as built", "C15-m4": "row-major batches with two-key kwargs",
  "C16-m3": "caught as built (changing action sets)", "C16-m4": "caught as built (finite T)", "C17-m3": "caught as built", "C17-m4": "tables created without declared columns", "C18-m3": "caught as built", "C18-m4": "caught as built",
+ "C01-m3": "caught as built (experiment seed in workers)", "C01-m4": "environments that are slow to pickle under maxchunksperchild=1 (the loader lags behind the workers); also caught by C08's scheduled co-simulation",
+ "C02-m3": "caught as built (cut 1 byte into a gzip member)", "C02-m4": "caught as built (cut between a record and its newline)", "C03-m3": "failing learners publish learning_info before they raise; corpus experiments with the failing triple ahead of healthy ones",
+ "C03-m4": "caught as built", "C08-m3": "real-process layer: a filter that kills its worker (os._exit) must not hang the call", "C08-m4": "caught as built", "C19-m3": "caught as built", "C19-m4": "re-entrant reads of one key by one caller (nesting depth 1-4, body failing or not)",
  "C20-m3": "caught as built (interleaved terms such as 'xax')", "C20-m4": "caught as built (number-first mixed sequences)",
 }
 def heading(pid, m):
